@@ -600,7 +600,7 @@ func (w *world) close() {
 		w.cancel()
 	}
 	if w.srv != nil {
-		w.srv.Stop()
+		w.srv.Abandon()
 	}
 }
 
